@@ -301,18 +301,24 @@ def longest_string_rule(prog, res, rule='validate-first'):
         res.undecided(rule, inst, f.loc(ins[0]['id']), 'inserted length is %s: computed by something the rule cannot read' % v, function=f.sig, expr='longest')
         return
     asg = [n for n in f.all_nodes({'BinaryOperator'}) if n['op'] == '=' and R.render(n['ch'][0]) == v]
+    # what is stored
+    stored = [R.render(n['args'][1]) for n in f.all_nodes({'CXXOperatorCallExpr'}) if n.get('op') == '=' and R.render(n['args'][0]) == 'this._param_data_string']
+    if len(stored) != 1:
+        res.undecided(rule, inst, f.loc(), 'cannot find the single store of the strings (%s)' % stored, function=f.sig, expr='longest')
+        return
+    S = re.escape(stored[0])
     from loops import loops_around
     good = []
     for a in asg:
         rhs = R.render(a['ch'][1])
-        mm = re.match(r'^arg0\[(?:\(unsigned long\))?local:(\w+)\]\.size$', rhs)
+        mm = re.match(r'^' + S + r'\[(?:\(unsigned long\))?local:(\w+)\]\.size$', rhs)
         la = loops_around(f, a['id'], R)
         guard = None
         for p in f.ancestors(a['id']):
             if f.nodes[p]['k'] == 'IfStmt':
                 guard = R.render(f.nodes[p]['cond'])
                 break
-        if mm and la and la[0]['name'] == mm.group(1) and la[0]['bound'] == 'arg0.size' and guard in ('(%s > %s)' % (rhs, v), '(%s < %s)' % (v, rhs)):
+        if mm and la and la[0]['name'] == mm.group(1) and la[0]['bound'] == stored[0] + '.size' and guard in ('(%s > %s)' % (rhs, v), '(%s < %s)' % (v, rhs)):
             good.append(a)
     init0 = False
     from paths import local_init
